@@ -14,7 +14,8 @@ namespace Clipper2Lib { namespace verif {
   inline void Yield(int site) { if (yield_fn) yield_fn(site); }
   // active-edge-list snapshot, one call per edge (left to right) and a final call with n = -1:
   // v = { y, bot.x, bot.y, top.x, top.y, curr_x, wind_dx, wind_cnt, wind_cnt2, path type (0 subject, 1 clip),
-  //       is_open, is_hot, cliptype, fillrule }
+  //       is_open, is_hot, cliptype, fillrule, index of the output ring the edge is building (-1 none),
+  //       1 if it is that ring's front edge, 2 if its back edge, 0 neither }
   typedef void (*AelFn)(int n, const long long* v);
   inline thread_local AelFn ael_fn = nullptr;
   // vertex flags assigned by AddPaths_, one call per vertex of a processed path (in list order) and a final
